@@ -591,3 +591,84 @@ contract("src/alignment_processor.py:AlignmentCollector.process_alignments_in_re
                   "assignment_storage[i].exons[len(assignment_storage[i].exons) - 1][1] <= gene_info.all_read_region_end "
                   "for i in range(len(assignment_storage)))",
                   "gene_info.all_read_region_start <= old(gene_info.all_read_region_start) and gene_info.all_read_region_end >= old(gene_info.all_read_region_end)"])
+
+
+# ---- second pass: every region read back from the intermediate file gets the reference window of ITS OWN span -------------------------------------------
+def _loader_window_problems(seed):
+    """2-4 gene-info records (genes G1 / G2 of an in-memory annotation, consecutive records often with the same gene list but other read
+    spans) written with the real TmpFileAssignmentPrinter and read back with the real NormalTmpFileAssignmentLoader over a random
+    sequence: each loaded record has its own span (first base clamped to 1) and reference_region is exactly that slice of the sequence"""
+    import os, random, shutil, tempfile, types
+    import gffutils
+    io_ = native.repo_import("src/assignment_io.py")
+    gi_mod = native.repo_import("src/gene_info.py")
+    rng = random.Random(seed)
+    gtf = []
+    for g, t, ex in (("G1", "T1", [(1001, 1200), (1501, 1700), (2501, 2800)]), ("G2", "T3", [(5001, 5400), (5601, 5900)])):
+        gtf.append('chrA\tsyn\tgene\t%d\t%d\t.\t+\t.\tgene_id "%s";' % (ex[0][0], ex[-1][1], g))
+        gtf.append('chrA\tsyn\ttranscript\t%d\t%d\t.\t+\t.\tgene_id "%s"; transcript_id "%s";' % (ex[0][0], ex[-1][1], g, t))
+        for a, b in ex:
+            gtf.append('chrA\tsyn\texon\t%d\t%d\t.\t+\t.\tgene_id "%s"; transcript_id "%s";' % (a, b, g, t))
+    db = gffutils.create_db("\n".join(gtf) + "\n", ":memory:", from_string=True, merge_strategy="error", disable_infer_genes=True,
+                            disable_infer_transcripts=True, keep_order=True)
+    seq = "".join(rng.choice("ACGT") for _ in range(8000))
+    base = os.path.join(os.path.dirname(os.path.dirname(os.path.abspath(__file__))), ".run")
+    os.makedirs(base, exist_ok=True)
+    d = tempfile.mkdtemp(prefix="ldw", dir=base)
+    problems = []
+    try:
+        spans = []
+        pr = io_.TmpFileAssignmentPrinter(os.path.join(d, "t.save"), types.SimpleNamespace())
+        gene = rng.choice(["G1", "G2"])
+        for _ in range(rng.randint(2, 4)):
+            if rng.random() < .3:
+                gene = rng.choice(["G1", "G2"])
+            g = gi_mod.GeneInfo([db[gene]], db, 0)
+            s_, e_ = g.start - rng.choice([0, 0, 20, 50, 400, 1000, 1001]), g.end + rng.choice([0, 0, 20, 50, 400])
+            g.all_read_region_start, g.all_read_region_end = max(0, s_), e_
+            pr.add_gene_info(g)
+            spans.append((gene, max(0, s_), e_))
+        del pr
+        ld = io_.NormalTmpFileAssignmentLoader(os.path.join(d, "t.save"), db, seq)
+        k = 0
+        while ld.has_next():
+            o = ld.get_object()
+            if o is None:
+                break
+            gene, s_, e_ = spans[k]
+            s1 = max(1, s_)
+            if (o.all_read_region_start, o.all_read_region_end) != (s1, e_):
+                problems.append("record %d (%s, span %d-%d of %s): loaded with window %d-%d" % (k, gene, s_, e_, spans, o.all_read_region_start, o.all_read_region_end))
+            elif o.reference_region != seq[s1 - 1:e_]:
+                problems.append("record %d (%s, span %d-%d of %s): reference_region is not the sequence of its own window (length %d for a window of %d)"
+                                % (k, gene, s_, e_, spans, len(o.reference_region), e_ - s1 + 1))
+            k += 1
+        if k != len(spans):
+            problems.append("%d of %d records read back" % (k, len(spans)))
+        del ld
+    finally:
+        shutil.rmtree(d, ignore_errors=True)
+    return problems
+
+
+def replay_loader_windows(d):
+    p = _loader_window_problems(d["inputs"]["seed"])
+    return (not p), "seed %s: %s" % (d["inputs"]["seed"], p[:2] or "every record has the sequence of its own window")
+
+
+@bounded("C18.loader_windows", ["C18", "C15"], note="the real TmpFileAssignmentPrinter / NormalTmpFileAssignmentLoader on 2-4 gene-info records, consecutive ones "
+         "often with the same gene list and different read spans (reads before the gene start, up to the first base of the sequence): every "
+         "record read back carries its own span and the reference sequence of exactly that window - what the Canonical flags of the second pass are read from")
+def c18_loader_windows(tier, rng):
+    n = 40 if tier == "quick" else 1500
+    base = rng.randrange(10 ** 9)
+    for k in range(n):
+        try:
+            p = _loader_window_problems(base + k)
+        except Exception as e:
+            p = ["exception %s: %s" % (type(e).__name__, e)]
+        if p:
+            return {"cases": k + 1, "bound": "%d files" % n, "violations": [{
+                "obligation": "C18.loader_windows", "inputs": {"seed": base + k}, "observed": p[:2],
+                "required": "each region read back has the reference window of its own span", "replay_call": "contracts.c_strand:replay_loader_windows"}]}
+    return {"cases": n, "bound": "%d random intermediate files" % n, "violations": [], "samples": [{"seed": base}]}
